@@ -101,10 +101,14 @@ def case(spec):
     res = CaseResult()
     dfsbin = BIN['san']['dfs']
     with Scratch('c05') as tmp:
-        enc = rng.choice(['fm', 'mfm'])
+        # stratified: every flux kind with one and with two sides in every run
+        kind_sel = ['hfe1', 'hfe3', 'mfm'][idx % 3]
+        enc = 'mfm' if kind_sel == 'mfm' else rng.choice(['fm', 'mfm'])
         spt = 10 if enc == 'fm' else rng.choice([18, 18, 16])
-        tracks = rng.choice([35, 40, 80]) if idx % 3 == 0 else 40
-        sides = rng.choice([1, 1, 2])
+        tracks = rng.choice([35, 40, 80]) if idx % 4 == 0 else 40
+        sides = 1 + (idx // 3) % 2
+        if sides == 2 and spt == 16:
+            spt = 18
         stratum_tight = idx % 5 == 4      # two-sided, tightly packed tracks, exact LUT lengths
         if stratum_tight:
             sides = 2
@@ -128,7 +132,7 @@ def case(spec):
                                      for t in range(tracks)))
         kinds = ['hfe1', 'hfe3'] + (['mfm'] if enc == 'mfm' else [])
         if tier == 'quick':
-            kinds = [rng.choice(kinds)]
+            kinds = [kind_sel]
         if stratum_tight:
             kinds = [rng.choice(['hfe1', 'hfe3'])]
         drives = [0, 2][:sides]
